@@ -61,7 +61,8 @@ def _shape(ws):
 
 @obligation(quick=150, thorough=300,
             partitions_quick=[f"evk == {e} and target == {t} and nw == {n}" for (e, t) in _ET for n in (1, 2)],
-            partitions_thorough=[f"evk == {e} and target == {t} and nw == {n} and a_acc_c == {a}" for (e, t) in _ET for n in (1, 2) for a in (False, True)],
+            partitions_thorough=[f"evk == {e} and target == {t} and nw == {n} and a_acc_c == {a}" for (e, t) in _ET for n in (1, 2) for a in (False, True)
+                                 if not ((e, t) == (2, 1) and not a)],   # EvC addressed to a step that does not accept it is rejected before it becomes a tick
             what="routing of TickAddEvent(e, target) against the statement's oracle: accepting steps get e exactly once, "
                  "pending matching waiters get it as wait result, others untouched, UnhandledEvent exactly when nobody takes it",
             bounds={"steps": 2, "num_workers(a)": "1..2", "queue": "0..QMAX", "waiter": "none/pending/resolved/timed-out",
@@ -288,6 +289,7 @@ def ob_whole_run_delivery(nw: int, c0: int, c1: int, c2: int, c3: int, c4: int, 
     from vlib.sched import Env, SymRuntime, run_loop
     from workflows import Context, Workflow, step
 
+    nw, c0, c1, c2, c3, c4, c5 = conc(nw, 1, 2), conc(c0, 0, 2), conc(c1, 0, 2), conc(c2, 0, 2), conc(c3, 0, 2), conc(c4, 0, 2), conc(c5, 0, 2)
     env = Env([c0, c1, c2, c3, c4, c5])
     log: list = []
 
